@@ -353,10 +353,6 @@ def _rebind_paths():
 HARNESS_FLAGS = ["-O2", "-DSAFE_PARAM", "-DSAFE_DATA", "-DSAFE_LOOKUP", "-fno-delete-null-pointer-checks", "-fwrapv",
                  "-fno-strict-overflow"]   # the flags the library itself compiles the checker with
 STATUS_COMPLETED, STATUS_INVALID_ARGS = 3, 4
-# mode m rows marked `deviation:` (today: IMB_SUBMIT_HASH_BURST(jobs=NULL) reports IMB_ERR_NULL_JOB through the global
-# error variable only, its siblings IMB_ERR_NULL_BURST in the manager; the header documents no code for this call) are
-# recorded in the evidence; True turns them into failures (finding key C12-api-sequence-hash-burst-jobs-null).
-STRICT_MISUSE_ROWS = False
 TRUSTED = [
     "Coq 8.16.1 kernel + coqc; OCaml extraction (ExtrOcamlBasic) and ocamlopt",
     "T1 translators/t1_enums.py (clang JSON AST cross-checked with compiled C, gcc and clang)",
@@ -989,8 +985,7 @@ def main(tier, seed):
     t1 = time.time()
     pm = sh([exe, "m"], env=common.lib_env(), timeout=300)
     mlines = [l for l in pm.stdout.splitlines() if l.startswith("U ")]
-    mdev = [l for l in mlines if " deviation:" in l]     # rows that pass a lenient oracle but differ from the sibling entry points
-    mfail = [l for l in mlines if not l.rstrip().endswith("OK") or (STRICT_MISUSE_ROWS and l in mdev)]
+    mfail = [l for l in mlines if not l.rstrip().endswith("OK")]
     ps = sh([exe, "s"], env=common.lib_env(), timeout=600)
     slines = [l for l in ps.stdout.splitlines() if l.startswith("S ")]
     sfail = [l for l in slines if not l.rstrip().endswith("OK")]
@@ -1120,8 +1115,7 @@ def main(tier, seed):
                                  "IMB_SUBMIT_HASH_BURST", "IMB_SUBMIT_HASH_BURST_NOCHECK (accepted jobs)",
                                  "IMB_SUBMIT_AEAD_BURST", "IMB_SUBMIT_AEAD_BURST_NOCHECK (accepted jobs)",
                                  "IMB_GET_NEXT_BURST / IMB_FLUSH_BURST (misuse rows)", "direct API (mode d table)"],
-        "burst_misuse": {"rows": len(mlines), "fail": len(mfail), "strict": STRICT_MISUSE_ROWS,
-                         "observations": sorted(set(re.sub(r"^U \S+ ", "", l) for l in mdev))},
+        "burst_misuse": {"rows": len(mlines), "fail": len(mfail)},
         "burst_suite_id": {"rows": len(slines), "fail": len(sfail),
                            "cases": dict(collections.Counter(re.search(r"case=(\w+)", l).group(1) for l in slines if "case=" in l))},
         "suite_id_tie": {"descriptors": len(lines), "model_ne_code": suite_diff, "distinct_ids": suite_distinct},
